@@ -23,9 +23,12 @@ class C13(Prop):
                 "NV.C13.input_never_overflows", "NV.C13.segmentation_independent",
                 "NV.C13.stored_text_is_stream_text", "NV.C13.negotiation_never_in_text", "NV.C13.editing_applied",
                 "NV.C13.ccByte_ok", "NV.C13.copyChars_append", "NV.C13.getUserCommand_ok",
-                "NV.C13.framing_never_crashes"]
+                "NV.C13.framing_never_crashes", "NV.C13.fRun_never_crashes", "NV.C13.telnet_lines_delivered",
+                "NV.C13.telnet_schedule_independent", "NV.C13.telnet_read_exact", "NV.C13.extract_exact",
+                "NV.C13.lines_eq_cmdsOf", "NV.C13.ascii_lines_delivered", "NV.C13.ascii_read_exact"]
     witness_theorems = ["NV.C13.sb_terminator_overflows_exact_array", "NV.C13.ayt_returns_to_data",
-                        "NV.C13.full_sb_payload_is_not_text", "NV.C13.ascii_spec_example"]
+                        "NV.C13.full_sb_payload_is_not_text", "NV.C13.ascii_spec_example",
+                        "NV.C13.burst_check", "NV.C13.telnet_lines_delivered_Full_false"]
     consts = [
         ("maxText", "MAX_TEXT"), ("sbSize", "SB_SIZE"),
         ("sbBufSize", "sizeof(((interactive_t*)0)->sb_buf)"),
@@ -105,7 +108,7 @@ class C13(Prop):
         out.append("/-- C: first_cmd_in_buf `if (ip->text_end > MAX_TEXT - N)` -/\ndef cutMargin : Nat := %d" % v)
         v = need("ascii space", r"text_space = MAX_TEXT - ip->text_end - (\d+);", count=1)
         out.append("/-- C: get_user_data PORT_ASCII/BINARY `text_space = MAX_TEXT - ip->text_end - N` -/\ndef asciiReserve : Nat := %d" % v)
-        need("console guard", r"if \(len <= 0 \|\| ip->text_end \+ len >= (MAX_TEXT)\)", str, count=1)
+        need("console guard", r"if \(ip->text_end \+ len >= (MAX_TEXT)(?: && !cmd_in_buf \(ip\))?\)", str, count=2)
         cfg = open(os.path.join(bdir, "config.h"), errors="replace").read()
         pk = re.search(r'#define PACKAGE "([^"]*)"', cfg)
         ve = re.search(r'#define VERSION "([^"]*)"', cfg)
@@ -289,6 +292,8 @@ class C13(Prop):
         add("console-too-long", "console", [b"c" * 2048, b"ok\n", b"c" * 2047 + b"\n", b"ok2\n"], console=True)
         add("console-partial-lines", "console", [b"lo", b"ok\nsa", b"y\r\n\n\0x\n"], console=True, inter="each")
         add("console-full-partial", "console", [b"a\n" + b"p" * 2045, b"\n", b"x\n"], console=True, inter="each")
+        add("console-stall-2047", "console", [b"p" * 2047, b"\n", b"look\n", b"q" * 2047, b"r" * 2048, b"say hi\n"], console=True, inter="each")
+        add("console-nofit-with-command-pending", "console", [b"a\n" + b"p" * 2040, b"zzzzzzzz\n", b"x\n"], console=True, inter="end")
         # binary
         add("binary-verbatim", "binary", [bytes(range(256)), b"\xff\xfa\x18\xff\xf0\r\n\0", b"z" * 3000])
         # single character mode (memory safety only)
